@@ -17,14 +17,23 @@ def _any_sym(xs):
     return any(isinstance(x, (SymReal, SymInt)) for x in xs)
 
 
+_INF = builtins.float("inf")
+
+
+def _drop(xs, inf):
+    """max(-inf, x) = x and min(+inf, x) = x: infinities are dropped before building a term."""
+    ys = [x for x in xs if not (isinstance(x, builtins.float) and not isinstance(x, SymReal) and x == inf)]
+    return ys
+
+
 def shim_max(*args, **kw):
     if len(args) == 1 and not kw:
         xs = list(args[0])
         if xs and _any_sym(xs):
-            return symx.smax(*xs)
+            return symx.smax(*_drop(xs, -_INF))
         return builtins.max(xs)
     if not kw and _any_sym(args):
-        return symx.smax(*args)
+        return symx.smax(*_drop(args, -_INF))
     return builtins.max(*args, **kw)
 
 
@@ -32,10 +41,10 @@ def shim_min(*args, **kw):
     if len(args) == 1 and not kw:
         xs = list(args[0])
         if xs and _any_sym(xs):
-            return symx.smin(*xs)
+            return symx.smin(*_drop(xs, _INF))
         return builtins.min(xs)
     if not kw and _any_sym(args):
-        return symx.smin(*args)
+        return symx.smin(*_drop(args, _INF))
     return builtins.min(*args, **kw)
 
 
